@@ -1,2 +1,2 @@
 #!/bin/bash
-exec python3 /verif/sim/gen_shadow.py
+exec python3 "$(dirname "$0")/gen_shadow.py"
